@@ -223,7 +223,7 @@ def check_config(acc, h, cfg, layer):
     except B.Reject as r:
         exp, exp_reject = None, r
     try:
-        app = h.build(cfg)
+        app = h.build(cfg, construct=cfg.get('construct', 'list'))
         built = None
     except Exception as e:
         built = e
@@ -331,6 +331,10 @@ def shard(tier, i, n, seed):
                 return acc
             if (k // n) % 3 == 1:
                 cfg = dict(cfg, mws_one_shot=True)      # middlewares= handed over as one-shot iterables
+            if (k // n) % 4 == 2:
+                cfg = dict(cfg, construct='cline')      # the Cline spelling
+            if (k // n) % 5 == 3 and any(m['level'] == 'app' for m in cfg['mws']):
+                cfg = dict(cfg, bundled_between=True)   # stock middlewares in the middle of the stack
             check_config(acc, h, cfg, name)
             if k % 7919 == i:
                 acc.sample({'layer': name, 'cfg': cfg})
